@@ -614,3 +614,37 @@ def call_arguments(fdef, call, names, base=PEval):
         else:
             out[nm] = ('call', 'alt', tuple(a[1] for a in alts))
     return out
+
+
+def site_paths(site):
+    """wrapper_paths for an xlayer call site: every array argument bound to a local name is taken as written by the kernel"""
+    argname = {v[0].id: pn for pn, v in site.args.items() if isinstance(v[0], ast.Name) and
+               getattr(site.shim.params.get(pn), "kind", None) == "arr"}
+    return wrapper_paths(site.func, site.call, argname, force=True)
+
+
+def wrapper_paths(fdef, call, argname, force=False):
+    """paths of a wrapper function; after the statement containing the kernel call every freshly allocated array argument is the
+    symbol K.<kernel parameter> (the kernel has written it).  argname: local variable name -> kernel parameter name.
+    -> (paths, {kernel parameter: the value handed in})"""
+    before = {}
+
+    class Hook(PEval):
+        def ex(self, node, env):
+            v = super().ex(node, env)
+            if any(n is call for n in ast.walk(node)):
+                for a in call.args:
+                    if isinstance(a, ast.Name) and a.id in argname:
+                        cur = env.get(a.id)
+                        fresh = isinstance(cur, tuple) and cur and cur[0] == 'call' and cur[1] in ('zeros', 'full', 'empty', 'ones')
+                        fresh = fresh or (isinstance(cur, tuple) and cur and cur[0] == 'mul')        # 0. * x, -1 * np.ones(..)
+                        if fresh or (force and cur is not None and cur != ('sym', a.id)):
+                            before[argname[a.id]] = cur
+                            env[a.id] = ('sym', 'K.' + argname[a.id])
+            return v
+    return Hook().run(fdef), before
+
+
+def kparse(txt, params):
+    """rule notation with K_<param> standing for the kernel-written buffer of that parameter"""
+    return parse(txt, {"K_" + p: ('sym', 'K.' + p) for p in params})
